@@ -2226,6 +2226,24 @@ def r03_17(ctx, counts) -> RuleResult:
                             if {nm.split('.')[-1] for nm in handler_names(model, f.module, h)} & arith:
                                 covered = True
                 fs = facts[nd.id]
+                if isinstance(x.op, ast.Pow) and isinstance(x.left, ast.Name):
+                    # int ** int is exact and unbounded in time and memory: the base must have
+                    # been promoted to float under a test that includes int
+                    base_float = any(
+                        isinstance(b, ast.Assign) and isinstance(b.targets[0], ast.Name)
+                        and b.targets[0].id == x.left.id and isinstance(b.value, ast.Call)
+                        and dotted(b.value.func) == 'float'
+                        and established_class(f.node, b, x.left.id, 'int')
+                        for b in walk_local(f.node))
+                    res.instances.append(f'{f.key}: base of `{stmt_text(x)[:30]}` promoted from '
+                                         f'int to float={base_float}')
+                    if base_float:
+                        res.ok()
+                    else:
+                        res.fail(finding('R03.17', f, x, 'integer power with unbounded exponent',
+                                         f'`{stmt_text(x)[:40]}`: the base can still be an int, so '
+                                         f'with an integer exponent Python computes the exact '
+                                         f'power: math:pow(7, 10**34) does not terminate'))
                 not_decimal = all(nm in promoted for nm in names if nm not in ('len',)) and bool(names) \
                     or any(fa.startswith('+all(') and 'isinstance(' in fa and ', int)' in fa for fa in fs)
                 res.instances.append(f'{f.key} [{"/".join(sorted(syms))}]: `{stmt_text(x)[:40]}` '
